@@ -357,3 +357,39 @@ pub fn run_opened_files(tables: &Tables, stmt: &Statement, files: Vec<File>, opt
         Err(p) => Outcome::Panic(p),
     }
 }
+
+/// rows emitted per input line when the statement is driven like FileExecutor does (joined table loaded first)
+pub fn rows_per_line(tables: &Tables, stmt: &Statement, lines: &[&str]) -> Outcome<Vec<usize>> {
+    let r = catch(|| -> Result<Vec<usize>, String> {
+        let mut engine = ExecutionEngine::new(tables, stmt);
+        engine.execute_joined_table(Arc::new(AtomicBool::new(true))).map_err(|e| format!("{}", e))?;
+        let config = engine.execution_config();
+        let mut out = Vec::new();
+        for l in lines {
+            let o = engine.execute((*l).to_string(), &config).map_err(|e| format!("{}", e))?;
+            out.push(o.result_row.map(|r| r.data.len()).unwrap_or(0));
+        }
+        Ok(out)
+    });
+    match r {
+        Ok(Ok(t)) => Outcome::Ok(t),
+        Ok(Err(e)) => Outcome::Err(e),
+        Err(p) => Outcome::Panic(p),
+    }
+}
+
+/// join `lines` with '\n' terminators and cut into files according to part lengths
+pub fn files_from(lines: &[&str], parts: &[usize]) -> Vec<Vec<u8>> {
+    let mut out = Vec::new();
+    let mut i = 0;
+    for p in parts {
+        let mut f = Vec::new();
+        for l in &lines[i..i + p] {
+            f.extend_from_slice(l.as_bytes());
+            f.push(b'\n');
+        }
+        out.push(f);
+        i += p;
+    }
+    out
+}
